@@ -38,8 +38,10 @@ def stopping_plan(prop, ctx, with_t3=False, with_x=True):
         P.append(sweep.family_shards(prop, "U-C", j))
         P.append(sweep.family_shards(prop, "U-G", j))
         P.append(sweep.family_shards(prop, "U-A", 2000, all_sizes=True))
+        P.append(sweep.family_shards(prop, "U-SC", 2000, all_sizes=True))
     else:
         P.append(sweep.family_shards(prop, "U-A", 2000))
+        P.append(sweep.family_shards(prop, "U-SC", 2000))
         P.append(sweep.family_shards(prop, "U-C", j, stride=4, offset=ctx.seed))
         P.append(sweep.family_shards(prop, "U-G", j, stride=6, offset=ctx.seed))
     if with_x:
@@ -77,8 +79,10 @@ def all_games_plan(prop, ctx, thresholds=False):
         P.append(sweep.family_shards(prop, "U-C", j))
         P.append(sweep.family_shards(prop, "U-G", j))
         P.append(sweep.family_shards(prop, "U-A", 2000, all_sizes=True))
+        P.append(sweep.family_shards(prop, "U-SC", 2000, all_sizes=True))
     else:
         P.append(sweep.family_shards(prop, "U-A", 2000))
+        P.append(sweep.family_shards(prop, "U-SC", 2000))
         P.append(sweep.family_shards(prop, "U-C", j, stride=4, offset=ctx.seed))
         P.append(sweep.family_shards(prop, "U-G", j, stride=6, offset=ctx.seed))
     P.append(sweep.family_shards(prop, "U-X", j))
